@@ -261,6 +261,7 @@ def walk(n, into_lambdas=True, into_omp=True):
             for cap in x.get("captures", []):
                 ch += cap.get("c", [])
             ch += x.get("params", [])
+        ch += x.get("pre", [])     # init statement / condition variable of an if
         ch += x.get("c", [])
         stack.extend(reversed([c for c in ch if c is not None]))
 
@@ -283,6 +284,7 @@ def link_parents(root):
             for cap in x.get("captures", []):
                 ch += cap.get("c", [])
             ch += x.get("params", [])
+        ch += x.get("pre", [])
         ch += x.get("c", [])
         for c in ch:
             if c is not None:
